@@ -7,6 +7,8 @@ import (
 	"fmt"
 	"time"
 
+	"github.com/buildbarn/bb-storage/pkg/blobstore/buffer"
+	"github.com/buildbarn/bb-storage/pkg/blobstore/slicing"
 	"github.com/buildbarn/bb-storage/pkg/digest"
 
 	"github.com/buildbarn/bb-storage/pkg/verifshim/vsched"
@@ -88,8 +90,8 @@ func finalSweep(objs ...lstore.Obj) func(s *lstore.Store, m *model) {
 func concScenarios(r *ev.Run, base lstore.Geometry) []mc.Scenario {
 	u := casUniverse("")
 	A, B, C := u.objs[0], u.objs[1], u.objs[2]
-	D := lstore.CASObj("D4", "", []byte("dddd"))
-	F := lstore.CASObj("F8", "", []byte("ffffffff"))
+	D := lstore.CASObj("D4", "", []byte("dW9z"))
+	F := lstore.CASObj("F8", "", []byte("f1928374"))
 	bound := ev.Pick(r, 2, 3)
 	budget := ev.Pick(r, 60, 600)
 	var scs []mc.Scenario
@@ -106,10 +108,10 @@ func concScenarios(r *ev.Run, base lstore.Geometry) []mc.Scenario {
 		}
 		// (a) two uploads sharing a sector, and a reader of the first.
 		add("shared-sector"+suffix, "Put(A3 in chunks a|aa) || Put(B5 in chunks bb|bbb) || Get(A3): neighbours share a sector", g, nil,
-			[]concOp{putT(A, [][]byte{[]byte("a"), []byte("aa")}), putT(B, [][]byte{[]byte("bb"), []byte("bbb")}), getT(A, 2)}, finalSweep(A, B))
+			[]concOp{putT(A, [][]byte{A.Content[:1], A.Content[1:]}), putT(B, [][]byte{B.Content[:2], B.Content[2:]}), getT(A, 2)}, finalSweep(A, B))
 		// (b) upload in flight while another uploader rotates blocks away.
 		add("rotation-during-write"+suffix, "Put(A3 slow, 3 chunks) || Put(C8);Put(F8) (block-sized uploads forcing rotations)", g, nil,
-			[]concOp{putT(A, [][]byte{[]byte("a"), []byte("a"), []byte("a")}), func(s *lstore.Store, m *model) {
+			[]concOp{putT(A, [][]byte{A.Content[:1], A.Content[1:2], A.Content[2:]}), func(s *lstore.Store, m *model) {
 				putT(C, [][]byte{C.Content})(s, m)
 				putT(F, [][]byte{F.Content})(s, m)
 			}, getT(A, 0)}, finalSweep(A, C, F))
@@ -124,10 +126,33 @@ func concScenarios(r *ev.Run, base lstore.Geometry) []mc.Scenario {
 			}
 		}
 		add("refresh-get-get"+suffix, "A3 sits in an old block: Get(A3) || Get(A3) || Put(D4)", g, prefillOld,
-			[]concOp{getT(A, 2), getT(A, 0), putT(D, [][]byte{[]byte("dd"), []byte("dd")})}, finalSweep(A, D))
+			[]concOp{getT(A, 2), getT(A, 0), putT(D, [][]byte{D.Content[:2], D.Content[2:]})}, finalSweep(A, D))
 		// (d) FindMissing refresh || Get.
 		add("refresh-fm-get"+suffix, "A3 in an old block: FindMissing(A3,B5) || Get(A3) || Put(B5)", g, prefillOld,
 			[]concOp{fmT(A, B), getT(A, 0), putT(B, [][]byte{B.Content})}, finalSweep(A, B))
+	}
+	// (a2) three neighbours in a 16-byte block: the middle one starts mid-sector, crosses a sector boundary
+	// and ends mid-sector, so it shares its first sector with A and its last one with D.
+	for _, raw := range []bool{false, true} {
+		g := base
+		g.SectorsPerBlock, g.RawReads = 4, raw
+		B6 := lstore.CASObj("B6", "", []byte("bKLMNO"))
+		suffix := ""
+		if raw {
+			suffix = "-raw"
+		}
+		steady := func(s *lstore.Store, m *model) {
+			// leave the initial phase (several "new" blocks, allocations spread over them): afterwards all
+			// allocations go to the single new block, back to back
+			for i := 0; i < 2; i++ {
+				f := lstore.CASObj("fill", "", []byte(fmt.Sprintf("0123456789abcd%02d", i)))
+				if err := s.PutOK(f.Digest, f.Content); err != nil {
+					vsched.HarnessFail("prefill: %v", err)
+				}
+			}
+		}
+		add("shared-sector-chain"+suffix, "steady state (one new block), then Put(A3 a|aa) || Put(B6 bb|bbbb: first and last sector shared) || Put(D4 dd|dd) back to back in one 16-byte block", g, steady,
+			[]concOp{putT(A, [][]byte{A.Content[:1], A.Content[1:]}), putT(B6, [][]byte{B6.Content[:2], B6.Content[2:]}), putT(D, [][]byte{D.Content[:2], D.Content[2:]})}, finalSweep(A, B6, D))
 	}
 	// (h) an upload whose source delivers more bytes than its digest states, next to a neighbour's upload.
 	for _, mem := range []bool{true, false} {
@@ -138,7 +163,7 @@ func concScenarios(r *ev.Run, base lstore.Geometry) []mc.Scenario {
 			name = "oversized-neighbour-mem"
 		}
 		over := func(s *lstore.Store, m *model) {
-			err, _ := s.Put(A.Digest, lstore.PutSpec{Chunks: [][]byte{[]byte("aaaXXXXX")}, Gate: true})
+			err, _ := s.Put(A.Digest, lstore.PutSpec{Chunks: [][]byte{append(append([]byte{}, A.Content...), []byte("XXXXX")...)}, Gate: true})
 			vsched.Obs("PutOversized=%s", status.Code(err))
 			if err == nil {
 				failf("bad-upload-acknowledged", "upload delivering more bytes than the digest states was acknowledged")
@@ -184,14 +209,66 @@ func concScenarios(r *ev.Run, base lstore.Geometry) []mc.Scenario {
 		add("composite-refresh", "parent in an old block: GetFromComposite(parent,child) || Get(child) || GetFromComposite(parent,child)", g, prefill,
 			[]concOp{gfc, getChild, gfc}, func(s *lstore.Store, m *model) { getChild(s, m); gfc(s, m) })
 	}
+	// (e2) composite read of a parent that only needs slicing (not refreshing) racing rotations
+	for _, raw := range []bool{false, true} {
+		g := base
+		g.RawReads = raw
+		parent := u.parent
+		child := u.slicer.Pieces[1]
+		want := parent.Content[child.OffsetBytes:]
+		prefill := func(s *lstore.Store, m *model) {
+			for i := 0; i < 2; i++ {
+				f := lstore.CASObj("fill", "", []byte(fmt.Sprintf("fill%04d", i)))
+				if err := s.PutOK(f.Digest, f.Content); err != nil {
+					vsched.HarnessFail("prefill: %v", err)
+				}
+			}
+			if err := s.PutOK(parent.Digest, parent.Content); err != nil {
+				vsched.HarnessFail("prefill: %v", err)
+			}
+			m.add(parent.Name, parent.Content)
+		}
+		gated := &gatedSlicer{inner: u.slicer}
+		gfc := func(s *lstore.Store, m *model) {
+			d, err := s.GetFromComposite(parent.Digest, child.Digest, gated)
+			vsched.Obs("GFC=%s", status.Code(err))
+			if err == nil && !bytes.Equal(d, want) {
+				failf("composite-wrong-bytes", "GetFromComposite returned %q want %q", d, want)
+			}
+			if err != nil {
+				checkRead("GetFromComposite", "P8[1]", want, d, err, m, false, false)
+			}
+		}
+		rot := func(s *lstore.Store, m *model) {
+			for _, o := range []lstore.Obj{C, F} {
+				putT(o, [][]byte{o.Content})(s, m)
+			}
+		}
+		getChild := func(s *lstore.Store, m *model) {
+			d, err := s.Get(child.Digest)
+			vsched.Obs("GetChild=%s", status.Code(err))
+			if err == nil && !bytes.Equal(d, want) {
+				failf("child-wrong-bytes", "Get(child) returned %q, the designated slice of the parent is %q", d, want)
+			}
+			if err != nil {
+				checkRead("Get", "P8[1]", want, d, err, m, false, false)
+			}
+		}
+		sfx := ""
+		if raw {
+			sfx = "-raw"
+		}
+		add("composite-slice-rotation"+sfx, "steady state, fresh parent: GetFromComposite(parent, child) (slicing is a scheduling point) || Put(C8);Put(F8) rotating blocks, then Get(child)", g, prefill,
+			[]concOp{gfc, rot}, func(s *lstore.Store, m *model) { getChild(s, m) })
+	}
 	// (f) hierarchical: same digest uploaded under two names while read under a third.
 	{
 		g := base
 		g.Hierarchical, g.New = true, 2
-		a1 := lstore.CASObj("A3@a", "a", []byte("aaa"))
-		a2 := lstore.CASObj("A3@a/b", "a/b", []byte("aaa"))
+		a1 := lstore.CASObj("A3@a", "a", []byte("aXy"))
+		a2 := lstore.CASObj("A3@a/b", "a/b", []byte("aXy"))
 		add("hier-two-uploads", "hierarchical: Put(A3@a) || Put(A3@a/b) || Get(A3@a/b)", g, nil,
-			[]concOp{putT(a1, [][]byte{[]byte("a"), []byte("aa")}), putT(a2, [][]byte{[]byte("aa"), []byte("a")}), func(s *lstore.Store, m *model) {
+			[]concOp{putT(a1, [][]byte{A.Content[:1], A.Content[1:]}), putT(a2, [][]byte{a2.Content[:2], a2.Content[2:]}), func(s *lstore.Store, m *model) {
 				d, err := s.Get(a2.Digest)
 				vsched.Obs("Get=%s", status.Code(err))
 				if err == nil && !bytes.Equal(d, a2.Content) {
@@ -254,4 +331,12 @@ func digestsOf(objs []lstore.Obj) []digest.Digest {
 		out[i] = o.Digest
 	}
 	return out
+}
+
+// gatedSlicer makes the (unlocked) slicing step of a composite read a scheduling point.
+type gatedSlicer struct{ inner *lstore.FixedSlicer }
+
+func (g *gatedSlicer) Slice(b buffer.Buffer, child digest.Digest) (buffer.Buffer, []slicing.BlobSlice) {
+	vsched.Yield("slicer.Slice")
+	return g.inner.Slice(b, child)
 }
